@@ -3,6 +3,7 @@ import TucanProofs.Lemmas.SpliceAny
 import TucanProofs.Lemmas.V3000Lines
 import TucanProofs.Lemmas.V3000File
 import TucanProofs.Lemmas.GraphFromMoleculeKeys
+import TucanProofs.Lemmas.Files
 /-!
 # C07 — the V3000 reader decodes exactly the molecule the file states
 
@@ -57,6 +58,19 @@ theorem C07_consecutive_renumbering (atoms : List (Int × Atom)) (bonds : List (
         ∃ k l, keyPos atoms k = some i ∧ keyPos atoms l = some j ∧
           (((k, l), d) ∈ bonds ∨ ((l, k), d) ∈ bonds)) :=
   graphFromMolecule_keys atoms bonds hk hb hz
+
+/-- **Text level.**  The text of a V3000 file (any header lines, fourth line ending in `V3000`, any of the three
+line-ending styles, the last line with or without terminator) is read by `graph_from_molfile_text` as the
+graph `graph_from_molecule` builds from what the table states. -/
+theorem C07_text_to_graph (text : Str) (lines : List Str) (atoms : List AtomEntry) (bonds : List BondEntry)
+    (ht : IsTextOf text lines) (f : IsV3000File lines atoms bonds) (hb : V3BondsOk atoms bonds)
+    (hver : ∀ l3, lines[3]? = some l3 → EndsInWord l3 (cs "V3000")) :
+    graphFromMolfileText text =
+      (graphFromMolecule (atomDictOf atoms) (bondDictOf (starsOf atoms) bonds) >>= fun q => pure q.1) := by
+  obtain ⟨hnb, eol, he, htext⟩ := ht
+  obtain ⟨l3, hl3⟩ := f.line3
+  rw [(graphFromMolfileText_dispatch eol he lines hnb text htext l3 hl3).1 (hver l3 hl3), f.reads hb]
+  rfl
 
 /-- **Continuation at any split point.**  However a logical line is split over physical lines — inside a
 token, directly after a minus sign, before or after a blank, once or many times — splicing restores it
